@@ -367,11 +367,11 @@ void run(Ctx &ctx, const std::string &w) {
     int negs = 0, maxLits = 0, anyG = 0, allG = 0, groupUse = 0;
     for (const auto &r : c.rules) { maxLits = std::max<int>(maxLits, (int)r.lits.size()); for (const auto &l : r.lits) { negs += l.neg; groupUse += l.name[0] == 'G'; } }
     for (const auto &g : c.groups) (g.any ? anyG : allG)++;
-    std::string ws, ms;
-    for (int x : winners) ws += std::to_string(x < 0 ? 9 : x);
+    std::string ms;
     for (int x : modesUsed) ms += std::to_string(x);
-    const std::string feat = "r" + std::to_string(rulesBucket) + "l" + std::to_string(maxLits) + "n" + std::to_string(b(negs)) + "g" + std::to_string(anyG) + std::to_string(allG) + "u" + std::to_string(b(groupUse)) +
-                             "w" + ws + "m" + ms + "a" + std::to_string(b(totalResumes)) + "f" + std::to_string(b(maxInFlight));
+    const bool implicitSeen = winners.count(-1) != 0, firstSeen = winners.count(0) != 0;
+    const std::string feat = "r" + std::to_string(rulesBucket) + "l" + std::to_string(maxLits) + "n" + std::to_string(b(negs)) + "g" + (anyG ? "o" : "") + (allG ? "a" : "") + (groupUse ? "u" : "") +
+                             "w" + std::to_string(winners.size()) + (implicitSeen ? "i" : "") + (firstSeen ? "f" : "") + "m" + ms + "a" + std::to_string(b(totalResumes)) + (maxInFlight > 1 ? "p" : "");
     ctx.feature(feat, !c.rules.empty());
 }
 
